@@ -312,9 +312,10 @@ def credential_mpm(ctx: Ctx, cls: ClassInfo) -> Optional[int]:
                 for base in bases:
                     if "__init__" in base.methods:
                         if base.name == "Credentials":
-                            if node.args:
+                            first = node.args[0] if node.args else next((kw.value for kw in node.keywords if kw.arg == base.methods["__init__"].params[1]), None)
+                            if first is not None:
                                 try:
-                                    value = ctx.r.const(init.module, node.args[0])
+                                    value = ctx.r.const(init.module, first)
                                 except NotConstant:
                                     value = None
                         else:
